@@ -32,10 +32,12 @@ def mosaic (m : ModeSem) (tab : List (Nat × Nat × Nat × Nat)) (ch : Nat → O
 def merged (g : Px → Px → Px → Px → Px) (buf : Img) : Img :=
   fun i j => g (buf (2 * i) (2 * j)) (buf (2 * i) (2 * j + 1)) (buf (2 * i + 1) (2 * j)) (buf (2 * i + 1) (2 * j + 1))
 
-/-- the four child files → what the callback writes for the parent (`none` = no file):
-nothing when all four children are missing, otherwise `write_image` of the merged tile -/
+/-- the four child files → what the callback leaves at the parent's position (`none` = no file): when all four
+children are missing, any file left there earlier is removed (`Gen.Merge.cb_removes_stale_and_returns_when_all_missing`;
+before the repair 3bfca95 it was left in place); otherwise `write_image` of the merged tile -/
 def callback (m : ModeSem) (sign : Int) (g : Px → Px → Px → Px → Px) (ch : Nat → Option Img) (old : File) : File :=
-  if (ch 0).isNone && (ch 1).isNone && (ch 2).isNone && (ch 3).isNone then old
+  if (ch 0).isNone && (ch 1).isNone && (ch 2).isNone && (ch 3).isNone then
+    (if Gen.Merge.cb_removes_stale_and_returns_when_all_missing then none else old)
   else writeImage m old (merged g (mosaic m (slicesFor sign) ch))
 
 /-- one pixel of the mosaic in terms of the child that covers it -/
